@@ -70,6 +70,7 @@ Inductive event :=
 | EStopRet (i : nat)
 | EReloadCall (i : nat)
 | EReloadRet (i : nat)
+| EPollBegin (i : nat)                                (* Main entered a (slow) IsRunning() call *)
 | EPoll (i : nat) (b : bool)
 | EEmit (i : nat) (s : st)
 | ETrigR (i : nat)                                    (* a reload trigger is offered by runnable i *)
@@ -126,6 +127,7 @@ Record aux_state := {
   rtrig : list nat;                      (* reload-trigger offers not yet received *)
   strig : list nat;                      (* shutdown-trigger offers not yet received *)
   sub_ok : list bool;                    (* GetStateChan of i may return *)
+  polling : bool;                        (* Main is inside a (slow) IsRunning() call *)
 }.
 
 Record state := {
@@ -411,7 +413,7 @@ Definition init (c : config) : state :=
      smap := repeat None n;
      hup := 0; callers := []; subs := []; passes := 0;
      aux := {| rtrig := repeat 0 n; strig := repeat 0 n;
-               sub_ok := map (fun r => negb (held_sub r)) (specs c) |};
+               sub_ok := map (fun r => negb (held_sub r)) (specs c); polling := false |};
      hist := [] |}.
 
 (* ------------------------------------------------------------------ labels *)
@@ -419,6 +421,7 @@ Definition init (c : config) : state :=
 Inductive label :=
 (* Main *)
 | LLaunch (i : nat)                      (* tau: wg.Go(runnable i); then gate or next *)
+| LPollBegin (i : nat)                   (* Main enters IsRunning(); reported only for slow answers *)
 | LPoll (i : nat) (b : bool)             (* IsRunning() answered b *)
 | LGateDecide (i : nat)                  (* tau: pendingError check after IsRunning()=true *)
 | LGateErr (i : nat)                     (* tau: select took errorChan *)
@@ -476,6 +479,7 @@ Inductive label :=
 
 Definition obs (l : label) : option event :=
   match l with
+  | LPollBegin i => Some (EPollBegin i)
   | LPoll i b => Some (EPoll i b)
   | LMainReturn r => Some (ERunReturn r)
   | LRunCall i => Some (ERunCall i)
@@ -553,11 +557,13 @@ Definition mark_mon_done (l : list mon_pc) : list mon_pc :=
   map (fun p => match p with MoAbsent => MoAbsent | _ => MoDone end) l.
 
 Definition set_rtrig (s : state) (l : list nat) : state :=
-  set_aux s {| rtrig := l; strig := strig (aux s); sub_ok := sub_ok (aux s) |}.
+  set_aux s {| rtrig := l; strig := strig (aux s); sub_ok := sub_ok (aux s); polling := polling (aux s) |}.
 Definition set_strig (s : state) (l : list nat) : state :=
-  set_aux s {| rtrig := rtrig (aux s); strig := l; sub_ok := sub_ok (aux s) |}.
+  set_aux s {| rtrig := rtrig (aux s); strig := l; sub_ok := sub_ok (aux s); polling := polling (aux s) |}.
 Definition set_sub_ok (s : state) (l : list bool) : state :=
-  set_aux s {| rtrig := rtrig (aux s); strig := strig (aux s); sub_ok := l |}.
+  set_aux s {| rtrig := rtrig (aux s); strig := strig (aux s); sub_ok := l; polling := polling (aux s) |}.
+Definition set_polling (s : state) (b : bool) : state :=
+  set_aux s {| rtrig := rtrig (aux s); strig := strig (aux s); sub_ok := sub_ok (aux s); polling := b |}.
 
 (* all labels except the quiescence observations *)
 Definition step0 (c : config) (s : state) (l : label) : option state :=
@@ -575,10 +581,16 @@ Definition step0 (c : config) (s : state) (l : label) : option state :=
       else None
     | _ => None
     end
+  | LPollBegin i =>
+    match main s with
+    | MGate j => if Nat.eqb i j && negb (polling (aux s))
+                 then Some (with_hist (set_polling s true) (EPollBegin i)) else None
+    | _ => None
+    end
   | LPoll i b =>
     match main s with
     | MGate j => if Nat.eqb i j
-                 then Some (with_hist (if b then set_main s (MGateCheck i) else s) (EPoll i b))
+                 then Some (with_hist (set_polling (if b then set_main s (MGateCheck i) else s) false) (EPoll i b))
                  else None
     | _ => None
     end
@@ -595,18 +607,20 @@ Definition step0 (c : config) (s : state) (l : label) : option state :=
     end
   | LGateErr i =>
     match main s, errq s with
-    | MGate j, e :: q => if Nat.eqb i j then Some (set_main (set_errq s q) (MExit (ResErr e))) else None
+    | MGate j, e :: q => if Nat.eqb i j && negb (polling (aux s))
+                         then Some (set_main (set_errq s q) (MExit (ResErr e))) else None
     | _, _ => None
     end
   | LGateTimeout i =>
     match main s with
-    | MGate j => if Nat.eqb i j && startup_may_fire c && negb (ctx_done s)
+    | MGate j => if Nat.eqb i j && startup_may_fire c && negb (ctx_done s) && negb (polling (aux s))
                  then Some (set_main s (MExit ResTimeout)) else None
     | _ => None
     end
   | LGateCtx i =>
     match main s with
-    | MGate j => if Nat.eqb i j && ctx_done s then Some (set_main s (after_launch c i)) else None
+    | MGate j => if Nat.eqb i j && ctx_done s && negb (polling (aux s))
+                 then Some (set_main s (after_launch c i)) else None
     | _ => None
     end
   | LReapErr =>
@@ -919,7 +933,7 @@ Definition step0 (c : config) (s : state) (l : label) : option state :=
   | LSubRel i =>
     if Nat.ltb i n then
       Some (with_hist (set_aux s {| rtrig := rtrig (aux s); strig := strig (aux s);
-                                    sub_ok := upd (sub_ok (aux s)) i true |}) (ESubRel i))
+                                    sub_ok := upd (sub_ok (aux s)) i true; polling := polling (aux s) |}) (ESubRel i))
     else None
   | LQuiet => None
   | LSnap _ => None
@@ -1039,6 +1053,7 @@ Definition event_eqb (a b : event) : bool :=
   | ESubscribe i, ESubscribe j | ESubCancel i, ESubCancel j | ESubClosed i, ESubClosed j => Nat.eqb i j
   | ERunRet i e, ERunRet j f => Nat.eqb i j && oerr_eqb e f
   | EPoll i b, EPoll j d => Nat.eqb i j && Bool.eqb b d
+  | EPollBegin i, EPollBegin j => Nat.eqb i j
   | EEmit i x, EEmit j y => Nat.eqb i j && Nat.eqb x y
   | ECall k o, ECall k' o' | ERet k o, ERet k' o' => Nat.eqb k k' && op_eqb o o'
   | EParentCancel, EParentCancel => true
@@ -1059,6 +1074,7 @@ Definition vis (c : config) (s : state) (e : event) : list label :=
   | EReloadCall i => [LReloadCall i]
   | EReloadRet i => [LReloadRet i]
   | EPoll i b => [LPoll i b]
+  | EPollBegin i => [LPollBegin i]
   | EEmit i x => [LEmit i x]
   | ETrigR i => [LTrigR i]
   | ETrigS i => [LTrigS i]
@@ -1140,6 +1156,6 @@ Definition key (s : state) : list N :=
   ++ flat_map key_mon (mon s) ++ sep :: flat_map (fun q => sep :: map nn q) (mq s)
   ++ sep :: map nn (cur s) ++ sep :: flat_map key_ost (smap s)
   ++ [sep; nn (hup s); nn (passes s)] ++ map nn (rtrig (aux s)) ++ sep :: map nn (strig (aux s))
-  ++ sep :: map bb (sub_ok (aux s)) ++ [sep]
+  ++ sep :: map bb (sub_ok (aux s)) ++ [sep; bb (polling (aux s))]
   ++ flat_map (fun kc => nn (fst (fst kc)) :: key_op (snd (fst kc)) ++ [match snd kc with CPending => 0%N | CReady => 1%N | CNew => 2%N end]) (callers s)
   ++ sep :: flat_map (fun b => sep :: key_sub b) (subs s).
